@@ -209,12 +209,13 @@ def main(argv=None):
                 continue
             if hre:
                 hs = [h for h in hs if re.search(hre, h.name)]
-        elif tier == "quick" and len(hs) > cap:
+        elif tier == "quick" and len(hs) > (u.quick_cap or cap):
+            cap_u = u.quick_cap or cap
             # quick tier: at most `cap` harnesses per unit and property — canaries first (vacuity guard), then the harnesses whose
             # primary (first-listed) property is this one, then declaration order; the rest runs in the thorough tier
             canaries = [h for h in hs if h.expect == "fail"][:1]
             rest = sorted([h for h in hs if h.expect != "fail"], key=lambda h: 0 if h.props[0] == prop else 1)
-            hs = rest[:cap - len(canaries)] + canaries
+            hs = rest[:cap_u - len(canaries)] + canaries
         if hs:
             selected[u.name] = hs
     if not selected:
